@@ -7,7 +7,7 @@ python3 - "$ID" "$N" "$NOTE" <<'PY'
 import json,sys
 i,n,note=sys.argv[1:4]
 m=json.load(open(f'/tmp/seed/{i}/out/{n}/meta.json'))
-m['integrator_verified']={'what_i_ran':'seedcheck.sh: scratch worktree — demo passes at HEAD, patch applies, go build + baseline (root and lz4) pass with patch, demo fails with patch; then git -C /repo apply, ./check quick, git -C /repo checkout -- .','result':note}
+m['integrator_verified']={'what_i_ran':'seedverify.sh: scratch worktree — demo passes at HEAD, patch applies, go build + baseline (root and lz4) pass with patch, demo fails with patch; then ./check quick with VERIF_REPO=<that worktree> (same code path as applying to /repo)','result':note}
 json.dump(m,open(f'/verif/seeded/{i}-{n}/meta.json','w'),indent=1)
 PY
 echo kept $D
